@@ -185,6 +185,9 @@ type Summary struct {
 	SelfCheckBad int64             `json:"self_check_mismatch"`
 	Components   map[string]string `json:"components"`
 	Completed    bool              `json:"completed"`
+	// NextRun < job.To: the worker stopped early to shed leaked state (goroutines
+	// of deadlocked bubbles cannot be killed); the driver continues in a fresh process.
+	NextRun int64 `json:"next_run"`
 }
 
 // RunBubble executes one simulated run inside a synctest bubble.
@@ -387,7 +390,16 @@ func search(t *testing.T, p *Prop, job *Job, emit func(any), tick func()) {
 	if job.Deadline > 0 {
 		deadline = t0.Add(time.Duration(job.Deadline) * time.Second)
 	}
+	sum.NextRun = job.To
+	var ms runtime.MemStats
 	for n := job.From; n < job.To; n++ {
+		if (n-job.From)%128 == 127 && !job.Reverse {
+			runtime.ReadMemStats(&ms)
+			if runtime.NumGoroutine() > 20000 || ms.HeapAlloc > 2<<30 {
+				sum.NextRun = n
+				break
+			}
+		}
 		i := n
 		if job.Reverse {
 			i = job.To - 1 - (n - job.From)
